@@ -8,7 +8,7 @@
     ([all_fixed]: the tree the check runs against; [pinned]: the tree as found).
     Spec (Val/CoerceSpec.v): [conforms], [ref_coerce] (RefCoerce), [ref_request]. *)
 From Coq Require Import List NArith ZArith Bool.
-From ApiFu Require Import Base.Sexp Val.Values Val.CoerceModel Val.CoerceSpec Val.CoerceProofs Val.CoerceRefine Val.CoerceRoutes.
+From ApiFu Require Import Base.Sexp Val.Values Val.CoerceModel Val.CoerceSpec Val.CoerceProofs Val.CoerceRefine Val.CoerceRoutes Val.CoerceTotal.
 Import ListNotations.
 
 (** Hypotheses, all true of the real system and checked on every case of the correspondence:
@@ -122,6 +122,31 @@ Theorem C05_reference_is_served : forall E dt, env_ok E = true -> forall site ar
   run_request all_fixed E dt site argdefs defs args raw = OPanic.
 Proof. exact reference_is_served. Qed.
 
+(** ** no panic, and the outcome is exactly the reference.  [env_closed E]: every named type an input
+    object of the schema mentions is defined; [sty_closed E t]: the same for one type expression.
+    Both are true of every schema the library builds (types are Go pointers) and are checked on
+    every case.  Then the coercion code never panics, for every document, valid or not, and for
+    the code as found as well as the repaired one ([fx] arbitrary): *)
+Theorem C05_request_no_panic : forall E dt, env_closed E = true -> forall fx site argdefs defs args raw,
+  (forall ad, In ad argdefs -> sty_closed E (in_type (snd ad)) = true) ->
+  run_request fx E dt site argdefs defs args raw <> OPanic.
+Proof. exact request_no_panic. Qed.
+
+(** ... so [C05_request_refines] sharpens to an equation: for every document the validator accepts
+    the resolver is called with RefCoerce of what the client supplied, or, when there is none, the
+    client gets an error and nothing is called. *)
+Theorem C05_request_exact : forall E dt, env_ok E = true -> env_closed E = true ->
+  forall site argdefs defs args raw,
+  (forall ad, In ad argdefs -> sty_closed E (in_type (snd ad)) = true) ->
+  (forall p, In p raw -> jval_ok (snd p) = true) ->
+  static_ok all_fixed E dt site argdefs defs args = true ->
+  run_request all_fixed E dt site argdefs defs args raw =
+  match ref_request E dt argdefs defs args raw with
+  | Some m => OCalled m
+  | None => ORuntimeError
+  end.
+Proof. exact request_exact. Qed.
+
 (** ** route_independent.  [same_value l j]: the literal and the variable value spell the same
     client value; [strip_nn t1 = strip_nn t2]: the types differ at most in non-null wrappers (all
     the validator allows between a variable and its location, [compatible_strip]).  Literal
@@ -228,6 +253,8 @@ Print Assumptions C05_request_refines.
 Print Assumptions C05_called_is_reference.
 Print Assumptions C05_reject_no_call.
 Print Assumptions C05_reference_is_served.
+Print Assumptions C05_request_no_panic.
+Print Assumptions C05_request_exact.
 Print Assumptions C05_route_independent.
 Print Assumptions C05_validator_types_differ_in_non_null_only.
 Print Assumptions C05_route_nested.
